@@ -417,7 +417,8 @@ impl CanonicalBlock {
     }
     pub fn bundle_age_update(&mut self, age: u128) -> bool {
         if self.bundle_age_get().is_some() {
-            self.set_data(CanonicalData::BundleAge(age.try_into().unwrap()));
+            // ages beyond the u64 range of the block saturate
+            self.set_data(CanonicalData::BundleAge(age.try_into().unwrap_or(u64::MAX)));
             return true;
         }
         false
